@@ -98,7 +98,11 @@ func readFields(br *bufio.Reader, rawAcc *[]byte) ([]Field, error) {
 }
 
 // ReadRawRequest parses one request (RFC 7230 section 3) from br.
-func ReadRawRequest(br *bufio.Reader) (*RawRequest, error) {
+func ReadRawRequest(br *bufio.Reader) (*RawRequest, error) { return ReadRawRequestHead(br, nil) }
+
+// ReadRawRequestHead is ReadRawRequest with a callback that runs when the head has been parsed, before the body is read
+// (used to answer "Expect: 100-continue").
+func ReadRawRequestHead(br *bufio.Reader, onHead func(*RawRequest)) (*RawRequest, error) {
 	r := &RawRequest{Framing: "none"}
 	line, raw, err := readLine(br)
 	if err != nil {
@@ -116,6 +120,9 @@ func ReadRawRequest(br *bufio.Reader) (*RawRequest, error) {
 	r.Fields, err = readFields(br, &r.HeadBytes)
 	if err != nil {
 		return nil, err
+	}
+	if onHead != nil {
+		onHead(r)
 	}
 	te := r.Values("Transfer-Encoding")
 	cl := r.Values("Content-Length")
@@ -197,6 +204,16 @@ func (r *RawResponse) Values(name string) []string {
 
 // ReadRawResponse parses one response; method decides header-only replies.
 func ReadRawResponse(br *bufio.Reader, method string) (*RawResponse, error) {
+	for {
+		r, err := readRawResponse1(br, method)
+		if err != nil || r.Status != 100 {
+			return r, err
+		}
+		// an interim 100 Continue: the final response follows
+	}
+}
+
+func readRawResponse1(br *bufio.Reader, method string) (*RawResponse, error) {
 	r := &RawResponse{Framing: "none"}
 	line, _, err := readLine(br)
 	if err != nil {
@@ -347,7 +364,13 @@ func (o *Origin) handle(c net.Conn, id int) {
 	defer c.Close()
 	br := bufio.NewReaderSize(c, 64<<10)
 	for seq := 0; ; seq++ {
-		r, err := ReadRawRequest(br)
+		r, err := ReadRawRequestHead(br, func(h *RawRequest) {
+			for _, v := range h.Values("Expect") {
+				if strings.EqualFold(v, "100-continue") {
+					c.Write([]byte("HTTP/1.1 100 Continue\r\n\r\n"))
+				}
+			}
+		})
 		if err != nil {
 			if !errors.Is(err, io.EOF) {
 				o.mu.Lock()
